@@ -216,3 +216,24 @@ func sortedKeys(m map[string]int) []string {
 
 //go:norace
 func join(ss []string) string { return strings.Join(ss, "; ") }
+
+// NoteConn appends an abridged transport log to the run's notes (used for evidence samples and replays).
+//
+//go:norace
+func (e *Env) NoteConn(name string, log []ConnEvLite) {
+	for i, ev := range log {
+		if i >= 40 {
+			e.Note("%s: ... %d more transport events", name, len(log)-i)
+			break
+		}
+		e.Note("%s @%d t=%v task%d %s", name, ev.Seq, ev.At, ev.Task, ev.What)
+	}
+}
+
+// ConnEvLite is a printable transport event.
+type ConnEvLite struct {
+	Seq  int64
+	At   time.Duration
+	Task int
+	What string
+}
